@@ -146,18 +146,19 @@ def select_start_nodes(td, env, num_starts):
         env: Environment may determine the node selection strategy
         num_starts: Number of nodes to select. This may be passed when calling the policy directly. See :class:`rl4co.models.AutoregressiveDecoder`
     """
-    num_loc = env.generator.num_loc if hasattr(env.generator, "num_loc") else 0xFFFFFFFF
+    # Number of nodes of the instances at hand: environments take their sizes from the data, so they
+    # may be used on instances of another size than the one their generator is configured for
+    num_nodes = td["action_mask"].shape[-1]
     if env.name in ["tsp", "atsp", "flp", "mcp"]:
         selected = (
             torch.arange(num_starts, device=td.device).repeat_interleave(td.shape[0])
-            % num_loc
+            % num_nodes
         )
     elif env.name in ["jssp", "fjsp"]:
         raise NotImplementedError("Multistart not yet supported for FJSP/JSSP")
     else:
-        # Environments with depot: we do not select the depot as a start node
-        if env.name == "mtsp":
-            num_loc = num_loc - 1  # for mTSP the depot is one of the `num_loc` nodes
+        # Environments with depot (node 0): we do not select the depot as a start node
+        num_loc = num_nodes - 1
         selected = (
             torch.arange(num_starts, device=td.device).repeat_interleave(td.shape[0])
             % num_loc
